@@ -5366,6 +5366,14 @@ impl<'a> SpanRound<'a> {
         self.largest
     }
 
+    /// Returns this configuration with its rounding mode negated. Rounding
+    /// `-span` with the result is the negation of rounding `span` with this
+    /// configuration.
+    #[inline]
+    pub(crate) fn negate_mode(self) -> SpanRound<'a> {
+        SpanRound { mode: self.mode.negate(), ..self }
+    }
+
     /// Returns true only when rounding a span *may* change it. When it
     /// returns false, and if the span is already balanced according to
     /// the largest unit in this round configuration, then it is guaranteed
